@@ -52,8 +52,19 @@ def _nearest(m, q):
 
 
 def _kdtree(m, q):
-    d, i = m.kdtree.query(q["points"])
-    return {"d": np.asarray(d)}
+    tree = m.kdtree
+    d, i = tree.query(q["points"])
+    # the answer names a vertex: it must be one of the current vertices at that distance (ties between coincident
+    # vertices are free), and the tree must index exactly the current vertices
+    V = np.asarray(m.vertices)
+    named = np.linalg.norm(V[np.asarray(i)] - q["points"], axis=1) if len(V) and int(np.max(i)) < len(V) else None
+    return {"d": np.asarray(d), "named": named, "n": int(tree.n)}
+
+
+def _nearest_vertex(m, q):
+    d, i = m.nearest.vertex(q["points"])
+    V = np.asarray(m.vertices)
+    return {"d": np.asarray(d), "named": np.linalg.norm(V[np.asarray(i)] - q["points"], axis=1) if len(V) and int(np.max(i)) < len(V) else None}
 
 
 def _tree(m, q):
@@ -153,7 +164,7 @@ OBS = {
     "contains": lambda m, q: np.asarray(m.contains(q["points"])),
     "nearest_on_surface": _nearest,
     "signed_distance": lambda m, q: np.asarray(m.nearest.signed_distance(q["points"])),
-    "nearest_vertex": lambda m, q: np.asarray(m.nearest.vertex(q["points"])[0]),
+    "nearest_vertex": _nearest_vertex,
     "section": _section,
     "outline": _outline,
     "smooth_shaded": lambda m, q: {"nv": len(m.smooth_shaded.vertices), "nf": len(m.smooth_shaded.faces)},
@@ -307,7 +318,13 @@ class C01(World):
             nreads = rng.choice([0, 1, 2, 3, 5, 8])
             for _ in range(nreads):
                 ops.append({"op": "read", "obs": rng.choice(obs), "rs": rng.randrange(2**31), "q": rng.randrange(2**31)})
+            # the shape staleness needs: the SAME question asked right before and right after a mutator, nothing read in between
+            around = {"op": "read", "obs": rng.choice(obs), "rs": rng.randrange(2**31), "q": rng.randrange(2**31)} if rng.random() < 0.4 else None
+            if around:
+                ops.append(dict(around))
             ops.append(self._gen_mutator(rng, pick(rng, config["weights"])))
+            if around:
+                ops.append(dict(around))
         return {"config": config, "ops": ops}
 
     def _gen_mutator(self, rng, kind):
